@@ -94,6 +94,7 @@ def main():
                 m = re.search(r"^package (\w+)", open(d).read(), re.M)
                 sub = pkgdir.get(m.group(1) if m else "", a.demo_dir) if a.demo_dir == "." else a.demo_dir
                 bydir.setdefault(sub, []).append(d)
+                os.makedirs(os.path.join(WT, sub), exist_ok=True)
                 shutil.copy(d, os.path.join(WT, sub))
             meta["demo_dirs"] = sorted(bydir)
 
